@@ -121,6 +121,8 @@ var Programs = map[string]string{
 	"reverter": "7 1 SSTORE 0xdeadbeef 0 MSTORE 4 28 REVERT",
 	// calls $callee with half of the received value; ignores failure; then sends 1 wei to $fresh; writes the call result to slot 2
 	"nested": "0 0 0 0 CALLVALUE 2 SWAP1 DIV $callee GAS CALL 2 SSTORE 0 0 0 0 1 $fresh GAS CALL POP STOP",
+	// calls $callee with the received value, ignores the outcome and stops (touches nothing else)
+	"nested_quiet": "0 0 0 0 CALLVALUE $callee GAS CALL POP STOP",
 	// touches $fresh (BALANCE), sends it the whole received value, then reverts
 	"touch_and_revert": "$fresh BALANCE POP 0 0 0 0 CALLVALUE $fresh GAS CALL POP 0 0 REVERT",
 	// self-destructs to the address in calldata[0:32] (zero calldata: to itself)
